@@ -6,6 +6,7 @@ import Proofs.Lemmas.AoefC02Keys
 import Proofs.Lemmas.AoefC02Reach
 import Proofs.Lemmas.AoefC02Closed
 import Proofs.C02Adapter
+import SoundeventModel.Aoef.RefTable
 namespace SE.Proofs.C02
 open SE SE.Paths SE.Aoef
 
@@ -142,5 +143,204 @@ theorem C02_closed (c : Collection) (dir : Option PPath) (d : Doc) (_hwf : WF c)
     closed d = true := C02_closed_any c dir d h
 
 example : WF ex ∧ ∃ d, save ex none = .ok d := ⟨ex_wf, _, ex_saved⟩
+
+
+/-! ### the reference table: `refs` is every declared reference field, and only those
+
+`refs d k` is what `closed` quantifies over.  `refRows` (SoundeventModel/Aoef/RefTable.lean) lists
+the reference-carrying fields of the schema one by one; its (owner, path, id type) triples are
+re-extracted from the type annotations of the declared fields of the `…Object` classes on every
+run and compared by a regenerated obligation.  Here: `refs` is exactly the union of the rows. -/
+
+theorem C02_refs_are_the_rows (d : Doc) (k : Kind) (x : String) : x ∈ refs d k ↔ x ∈ rowRefs d k := by
+  cases k <;>
+    simp [refs, rowRefs, rowsOf, refRows, noteRefs, List.mem_append, and_or_left, exists_or, or_assoc]
+
+theorem mem_rowRefs {d : Doc} {k : Kind} {x : String} :
+    x ∈ rowRefs d k ↔ ∃ r ∈ refRows, r.kind = k ∧ x ∈ r.get d := by
+  unfold rowRefs rowsOf
+  simp only [List.mem_flatMap, List.mem_filter, beq_iff_eq]
+  constructor
+  · rintro ⟨r, ⟨hr, hk⟩, hx⟩; exact ⟨r, hr, hk, hx⟩
+  · rintro ⟨r, hr, hk, hx⟩; exact ⟨r, ⟨hr, hk⟩, hx⟩
+
+theorem kind_mem_all (k : Kind) : k ∈ Kind.all := by cases k <;> decide
+
+/-- `closed`, row by row: a document is closed under reference iff every identifier found by any
+    row of the reference table is defined in the top-level list of the row's kind -/
+theorem C02_closed_iff_rows (d : Doc) :
+    closed d = true ↔ ∀ r ∈ refRows, ∀ x ∈ r.get d, x ∈ defs d r.kind := by
+  unfold closed closedAt
+  simp only [List.all_eq_true, List.contains_iff_mem]
+  constructor
+  · intro h r hr x hx
+    exact h r.kind (kind_mem_all _) x ((C02_refs_are_the_rows d r.kind x).2 (mem_rowRefs.2 ⟨r, hr, rfl, hx⟩))
+  · intro h k _ x hx
+    obtain ⟨r, hr, hk, hxr⟩ := mem_rowRefs.1 ((C02_refs_are_the_rows d k x).1 hx)
+    subst hk
+    exact h r hr x hxr
+
+/-- the property, field by field: in a saved document every identifier held by any reference field
+    of the schema is defined in the top-level list of the kind the field points to -/
+theorem C02_rows_defined (c : Collection) (dir : Option PPath) (d : Doc) (h : save c dir = .ok d) :
+    ∀ r ∈ refRows, ∀ x ∈ r.get d, x ∈ defs d r.kind :=
+  (C02_closed_iff_rows d).1 (C02_closed_any c dir d h)
+
+example : rowsWellTyped = true := by decide
+example : refRows.length = 37 := by decide
+
+theorem within_of_withinB {d : Doc} {keys : List String} (h : d.withinB keys = true) : d.within keys := by
+  unfold Doc.withinB at h
+  simp only [Bool.and_eq_true, List.all_eq_true, Bool.or_eq_true, List.contains_iff_mem, List.isEmpty_iff] at h
+  refine ⟨fun r hr hk => ?_, fun k hk => ?_⟩
+  · rcases h.1 r hr with h1 | h1
+    · exact absurd h1 hk
+    · exact h1
+  · rcases h.2 k (kind_mem_all k) with h1 | h1
+    · exact absurd h1 hk
+    · exact h1
+
+/-- **generic schema theorem** (instantiated on the key list extracted from every collection
+    schema on every run): if a schema is closed — it declares, for every reference field it can
+    hold, the definition list of that field's kind — then in any document that populates only
+    declared fields every reference that occurs lives under a declared key and points into a
+    declared definition list -/
+theorem C02_schema_closed (keys : List String) (hk : schemaClosed keys = true) (d : Doc) (hd : d.within keys) :
+    ∀ r ∈ refRows, r.get d ≠ [] → r.owner ∈ keys ∧ r.kind.name ∈ keys := by
+  intro r hr hne
+  have ho : r.owner ∈ keys := by
+    by_contra hn
+    exact hne (hd.1 r hr hn)
+  refine ⟨ho, ?_⟩
+  unfold schemaClosed at hk
+  simp only [List.all_eq_true, Bool.or_eq_true, Bool.not_eq_true', List.contains_iff_mem] at hk
+  rcases hk r hr with h | h
+  · simp [ho] at h
+  · exact h
+
+example : schemaClosed (Doc.keys "annotation_project") = true ∧ schemaClosed (Doc.keys "recording_set") = true
+    ∧ schemaClosed (Doc.keys "evaluation") = true := by decide +kernel
+example : exDoc.withinB (Doc.keys "annotation_project") = true := by decide +kernel
+/-- a schema that can hold clips but declares no recording list is not closed -/
+example : schemaClosed ["uuid", "clips", "clip_annotations", "tags", "users", "sound_event_annotations",
+                        "sequence_annotations"] = false := by decide +kernel
+
+/-! ### exactness, in terms of objects, for every kind -/
+
+def Obj.key : Obj → String
+  | .user x => x.uuid | .tag t => s!"{t.key}\u0000{t.value}" | .recording x => x.uuid | .clip x => x.uuid
+  | .soundEvent x => x.uuid | .sequence x => x.uuid | .seAnn x => x.uuid | .seqAnn x => x.uuid
+  | .clipAnn x => x.uuid | .sePred x => x.uuid | .seqPred x => x.uuid | .clipPred x => x.uuid
+  | .task x => x.uuid | .mtch x => x.uuid | .clipEval x => x.uuid
+
+theorem mem_reachKeys {os : List Obj} {k : Kind} {key : String} :
+    key ∈ reachKeys os k ↔ ∃ o ∈ os, o.kind = k ∧ Obj.key o = key := by
+  cases k <;>
+  · simp only [reachKeys, List.mem_map, mem_usersOf, mem_tagsOf, mem_recsOf, mem_clipsOf, mem_sesOf, mem_seqsOf,
+      mem_seasOf, mem_sqasOf, mem_casOf, mem_sepsOf, mem_sqpsOf, mem_cpsOf, mem_tasksOf, mem_matchesOf, mem_cesOf]
+    constructor
+    · rintro ⟨x, hx, rfl⟩
+      exact ⟨_, hx, rfl, rfl⟩
+    · rintro ⟨o, ho, hk, rfl⟩
+      cases o <;> simp only [Obj.kind, reduceCtorEq] at hk
+      exact ⟨_, ho, rfl⟩
+
+/-- the objects defined are exactly the reachable ones, for every kind: an identifier (a tag: its
+    content) is defined iff it is the identifier of an object of that kind reachable from the
+    collection along direct references -/
+theorem C02_exact_objects (c : Collection) (dir : Option PPath) (d : Doc) (h : save c dir = .ok d)
+    (k : Kind) (key : String) :
+    key ∈ (if k = .tag then tagDefKeys d else defs d k) ↔ ∃ o, Reachable c o ∧ o.kind = k ∧ Obj.key o = key := by
+  rw [C02_exact c dir d h k key, mem_reachKeys]
+  constructor
+  · rintro ⟨o, ho, hk, hkey⟩; exact ⟨o, (C02_trav_iff_reachable c o).1 ho, hk, hkey⟩
+  · rintro ⟨o, ho, hk, hkey⟩; exact ⟨o, (C02_trav_iff_reachable c o).2 ho, hk, hkey⟩
+
+/-- a tag content is defined once: no two entries of the tag list have the same (key, value) -/
+theorem C02_tag_contents_nodup (c : Collection) (dir : Option PPath) (d : Doc) (h : save c dir = .ok d) :
+    ((lst d.tags).map (fun t => (t.key, t.value))).Nodup := by
+  obtain ⟨rs, _, spec⟩ := save_spec h
+  rw [spec.tags]
+  have : (encTags (tagTable c.trav)).map (fun t => (t.key, t.value))
+      = (tagTable c.trav).map (fun t => (t.key, t.value)) := by
+    unfold encTags
+    rw [List.map_map]
+    have : ((fun o : TagObj => (o.key, o.value)) ∘ fun x : Tag × Nat => (⟨x.2, x.1.key, x.1.value⟩ : TagObj))
+        = (fun t : Tag => (t.key, t.value)) ∘ Prod.fst := rfl
+    rw [this, ← List.map_map, List.zipIdx_map_fst]
+  rw [this]
+  refine List.Pairwise.map _ ?_ (tagTable_nodup _)
+  intro a b hab heq
+  apply hab
+  cases a; cases b
+  simp only [Prod.mk.injEq] at heq
+  obtain ⟨h1, h2⟩ := heq
+  subst h1; subst h2; rfl
+
+example : (lst exDoc.tags).map (fun t => (t.key, t.value)) = [("site", "A"), ("project", "only"), ("species", "x")] := by
+  decide +kernel
+
+
+/-! ### a saved document populates only what its schema declares -/
+
+set_option linter.unusedSimpArgs false
+macro "within_simp" "[" ls:Lean.Parser.Tactic.simpLemma,* "]" : tactic =>
+  `(tactic| simp [Doc.withinB, refRows, Kind.all, Doc.keys, baseKeysRS, baseKeysAS, baseKeysPS, Collection.typeName,
+      noteRefs, defs, Kind.name, caSrc, cpSrc, taskSrc, projTags, evalTags, dedupBy, tagRefs, $ls,*])
+
+set_option maxRecDepth 2000 in
+theorem C02_save_within (c : Collection) (dir : Option PPath) (d : Doc) (h : save c dir = .ok d) :
+    d.withinB (Doc.keys c.typeName) = true := by
+  obtain ⟨rs, _, spec⟩ := save_spec h
+  have hk := trav_kinds c
+  cases c with
+  | recordingSet x =>
+    within_simp [spec.clips, spec.ses, spec.seqs, spec.seas, spec.sqas, spec.cas, spec.seps,
+      spec.sqps, spec.cps, spec.ces, spec.ms, spec.tasks, spec.ptags, spec.etags,
+      clipsOf_nil hk rfl, sesOf_nil hk rfl, seqsOf_nil hk rfl, seasOf_nil hk rfl, sqasOf_nil hk rfl,
+      casOf_nil hk rfl, sepsOf_nil hk rfl, sqpsOf_nil hk rfl, cpsOf_nil hk rfl, tasksOf_nil hk rfl,
+      matchesOf_nil hk rfl, cesOf_nil hk rfl]
+  | dataset x =>
+    within_simp [spec.clips, spec.ses, spec.seqs, spec.seas, spec.sqas, spec.cas, spec.seps,
+      spec.sqps, spec.cps, spec.ces, spec.ms, spec.tasks, spec.ptags, spec.etags,
+      clipsOf_nil hk rfl, sesOf_nil hk rfl, seqsOf_nil hk rfl, seasOf_nil hk rfl, sqasOf_nil hk rfl,
+      casOf_nil hk rfl, sepsOf_nil hk rfl, sqpsOf_nil hk rfl, cpsOf_nil hk rfl, tasksOf_nil hk rfl,
+      matchesOf_nil hk rfl, cesOf_nil hk rfl]
+  | annotationSet x =>
+    within_simp [spec.seps, spec.sqps, spec.cps, spec.ces, spec.ms, spec.tasks, spec.ptags, spec.etags,
+      sepsOf_nil hk rfl, sqpsOf_nil hk rfl, cpsOf_nil hk rfl, tasksOf_nil hk rfl,
+      matchesOf_nil hk rfl, cesOf_nil hk rfl]
+  | annotationProject x =>
+    within_simp [spec.seps, spec.sqps, spec.cps, spec.ces, spec.ms, spec.etags,
+      sepsOf_nil hk rfl, sqpsOf_nil hk rfl, cpsOf_nil hk rfl, matchesOf_nil hk rfl, cesOf_nil hk rfl]
+  | evaluationSet x =>
+    within_simp [spec.seps, spec.sqps, spec.cps, spec.ces, spec.ms, spec.tasks, spec.ptags,
+      sepsOf_nil hk rfl, sqpsOf_nil hk rfl, cpsOf_nil hk rfl, tasksOf_nil hk rfl,
+      matchesOf_nil hk rfl, cesOf_nil hk rfl]
+  | predictionSet x =>
+    within_simp [spec.seas, spec.sqas, spec.cas, spec.ces, spec.ms, spec.tasks, spec.ptags, spec.etags,
+      seasOf_nil hk rfl, sqasOf_nil hk rfl, casOf_nil hk rfl, tasksOf_nil hk rfl,
+      matchesOf_nil hk rfl, cesOf_nil hk rfl]
+  | modelRun x =>
+    within_simp [spec.seas, spec.sqas, spec.cas, spec.ces, spec.ms, spec.tasks, spec.ptags, spec.etags,
+      seasOf_nil hk rfl, sqasOf_nil hk rfl, casOf_nil hk rfl, tasksOf_nil hk rfl,
+      matchesOf_nil hk rfl, cesOf_nil hk rfl]
+  | evaluation x =>
+    within_simp [spec.tasks, spec.ptags, spec.etags, tasksOf_nil hk rfl]
+
+example : exDoc.withinB (Doc.keys ex.typeName) = true := C02_save_within ex none exDoc ex_saved
+
+/-- the model's eight schemas are closed (the regenerated obligation states the same of the key
+    lists extracted from the code) -/
+theorem C02_model_schemas_closed (c : Collection) : schemaClosed (Doc.keys c.typeName) = true := by
+  cases c <;> simp only [Collection.typeName] <;> decide +kernel
+
+/-- in a saved document every reference lives under a key the collection's schema declares and
+    points into a definition list that schema declares -/
+theorem C02_save_refs_declared (c : Collection) (dir : Option PPath) (d : Doc) (h : save c dir = .ok d) :
+    ∀ r ∈ refRows, r.get d ≠ [] → r.owner ∈ Doc.keys c.typeName ∧ r.kind.name ∈ Doc.keys c.typeName :=
+  C02_schema_closed _ (C02_model_schemas_closed c) d (within_of_withinB (C02_save_within c dir d h))
+
+example : ∃ d, save ex none = .ok d := ⟨_, ex_saved⟩
 
 end SE.Proofs.C02
